@@ -72,6 +72,26 @@ type scope struct {
 	selLabel  string
 }
 
+// blocks reports a channel operation inside a statement: in the shutdown case it could keep the
+// goroutine from ever reaching the case's last statement
+func blocks(n ast.Node) bool {
+	found := false
+	ast.Inspect(n, func(x ast.Node) bool {
+		switch y := x.(type) {
+		case *ast.SendStmt, *ast.SelectStmt:
+			found = true
+		case *ast.UnaryExpr:
+			if y.Op == token.ARROW {
+				found = true
+			}
+		case *ast.FuncLit:
+			return false
+		}
+		return !found
+	})
+	return found
+}
+
 func hasBranch(n ast.Node) bool {
 	found := false
 	ast.Inspect(n, func(x ast.Node) bool {
@@ -225,6 +245,11 @@ func (c *ctx) serviceLoop(f *ast.ForStmt, labels map[string]bool, loopLabel stri
 			for _, st := range cc.Body[:max(0, len(cc.Body)-1)] {
 				if hasBranch(st) {
 					failf("%s: control flow inside the shutdown case before its last statement", cw)
+				}
+			}
+			for _, st := range cc.Body {
+				if blocks(st) {
+					failf("%s: channel operation inside the shutdown case (it may wait there instead of leaving)", cw)
 				}
 			}
 			if n := len(cc.Body); n > 0 {
